@@ -19,8 +19,8 @@ def run_property(prop, tier, repo, overlay=None, quiet=False, write=True,
                  prog=None, cg=None):
     t0 = time.time()
     ctx = report.Ctx(prop, tier, repo, overlay, prog=prog, cg=cg)
-    mod = importlib.import_module('mstatic.rules.%s' % prop.lower())
-    mod.run(ctx)
+    from mstatic import rules
+    rules.run(ctx)
     extra = None
     if tier == 'thorough' and write:
         from mstatic import selftest
@@ -95,8 +95,8 @@ def do_replay(prop, path, repo):
         want = json.load(fh)
     t0 = time.time()
     ctx = report.Ctx(prop, 'quick', repo)
-    mod = importlib.import_module('mstatic.rules.%s' % prop.lower())
-    mod.run(ctx)
+    from mstatic import rules
+    rules.run(ctx)
     for r in ctx.rules:
         for v in r.violations:
             if v.rule == want['rule'] and v.construct == want['construct']:
